@@ -317,3 +317,10 @@ Lemma tan_rollover_error_fails : forall w, tan_write_result true w = false.
 Proof.
   intros w. unfold tan_write_result. change c10_tan_rollover_error_propagates with true. reflexivity.
 Qed.
+
+(* ---- engine.go: a log store error stops the host (regenerated code shapes) ---- *)
+Lemma engine_stops_on_store_error_proved :
+  c10_process_steps_propagates_save_error = true /\
+  c10_snapshotter_propagates_save_snapshots_error = true /\
+  c10_engine_workers_panic_on_error = true.
+Proof. repeat split; reflexivity. Qed.
